@@ -1,13 +1,13 @@
-(* h_c09.ml — case handler of the C09 runner (appended after helpers.ml).
-   Lines of cases/c09.in:
-     T fn <lang> <id> <name>          function name table (lang "xl" = Function::to_xlsx_string)
-     T err <lang> <idx> <atoms...>    tokens the lexer of <lang> reads from the English spelling of error idx
-     T bool <lang> <TRUE> <FALSE>      the boolean literals of the language
-     T tf <id true> <id false>        indices of Function::True / Function::False
-     T sheet <name> | T ctxsheet <name> | T defname <name> <scope> <formula>
-     C <form> <dot> <lang> <row> <col> <ast atoms...>
-   A C line answers "<tokens of print> | <dump of parse of those tokens> | <bad pairs> | <image>".
-   The rendering of tokens / trees as atoms is the one of harness/c09/src/nodeio.rs. *)
+(* h_c26.ml — case handler of the C26 runner (appended after helpers.ml).
+   Lines of cases/c26.in:
+     T fn en <id> <name> | T err en <idx> <atoms...> | T bool en <TRUE> <FALSE> | T tf <id true> <id false>
+                                     the English name tables, dumped from the built code on every run
+     P <ctx sheet> <n> <sheet>*n <k> (<name> <scope> <formula>)*k <t> <table>*t | <token atoms...>
+                                     a stored formula of a worksheet: the parser environment of the workbook and
+                                     the tokens the real R1C1 lexer reads from the stored text; answer = dump of
+                                     Persist.parse_stored (the tree the loader keeps)
+     L <n>                           an integer literal below 2^53; answer = Persist.store_int n
+   The rendering of tokens / trees as atoms is the one of harness/c09/src/nodeio.rs (token_atom, dump). *)
 
 let fn_names : (string * int, text) Hashtbl.t = Hashtbl.create 4096
 let fn_ids : (string * string, int) Hashtbl.t = Hashtbl.create 4096
@@ -172,39 +172,43 @@ let names_of (lang : string) : names =
         let l = if lang = "xl" then "en" else lang in
         try Hashtbl.find err_toks (l, int_of_z k) with Not_found -> [TError k]) }
 
-let str_of_text (t : text) = String.concat "" (List.map (fun z -> String.make 1 (Char.chr (int_of_z z))) t)
-let pos_name = function PLeft -> "left" | PRight -> "right" | POnly -> "only" | PArg -> "arg"
-let pair_name p pos c = Printf.sprintf "%s<-%s:%s" (str_of_text (kind_name p)) (str_of_text (kind_name c)) (pos_name pos)
+
+let rec split_bar acc = function
+  | "|" :: r -> (List.rev acc, r)
+  | x :: r -> split_bar (x :: acc) r
+  | [] -> (List.rev acc, [])
+
+let rec take k l = if k = 0 then ([], l) else match l with x :: r -> let (a, b) = take (k - 1) r in (x :: a, b) | [] -> failwith "take"
 
 let handle f = match f with
   | "T" :: "fn" :: lang :: id :: name :: [] ->
     let t = text_of_wire name in
     Hashtbl.replace fn_names (lang, int_of_string id) t;
-    if lang <> "xl" then Hashtbl.replace fn_ids (lang, key_of t) (int_of_string id);
+    Hashtbl.replace fn_ids (lang, key_of t) (int_of_string id);
     "ok"
   | "T" :: "err" :: lang :: idx :: atoms -> Hashtbl.replace err_toks (lang, int_of_string idx) (List.map atom_token atoms); "ok"
   | "T" :: "bool" :: lang :: a :: b :: [] -> Hashtbl.replace bools lang (a, b); "ok"
   | "T" :: "tf" :: a :: b :: [] -> tf := (int_of_string a, int_of_string b); "ok"
-  | "T" :: "sheet" :: name :: [] -> sheets := !sheets @ [text_of_wire name]; "ok"
-  | "T" :: "ctxsheet" :: name :: [] -> ctx_sheet := text_of_wire name; "ok"
-  | "T" :: "defname" :: name :: sc :: fo :: [] -> defnames := !defnames @ [((text_of_wire name, opt_z sc), text_of_wire fo)]; "ok"
-  | "C" :: form :: dot :: lang :: row :: col :: atoms ->
-    let (e, rest) = read_ast atoms in
-    if rest <> [] then "badcase-trailing" else
-    let m = { pm_rc = (form = "rc"); pm_xlsx = (form = "xl"); pm_dot = bi dot; pm_row = zi row; pm_col = zi col } in
-    let nm = names_of (if form = "xl" then "xl" else lang) in
-    let env = { pe_sheets = !sheets; pe_ctx_sheet = !ctx_sheet; pe_defnames = !defnames; pe_tables = [] } in
-    (* C09_POLICY=fixed: the hypothetical printer that also wraps the three associative cases (Printer.full_policy) *)
-    let ts = if Sys.getenv_opt "C09_POLICY" = Some "fixed" then print_fixed m nm e else print m nm e in
-    let glued = glue m.pm_rc ts in
-    let toks = String.concat " " (List.map token_atom glued) in
-    let back = match parse m nm env glued with Some (e', _) -> dump_s e' | None -> "P" in
-    let bp = String.concat "," (List.map (fun ((p, pos), c) -> pair_name p pos c) (bad_pairs m.pm_xlsx e)) in
-    Printf.sprintf "%s | %s | bad=%s" toks back bp
-  | "I" :: atoms ->
-    (* is the tree one the parser returns for some text? (A1 form, English) *)
-    let (e, _) = read_ast atoms in
-    let m = { pm_rc = false; pm_xlsx = false; pm_dot = true; pm_row = zi "3"; pm_col = zi "3" } in
-    let env = { pe_sheets = !sheets; pe_ctx_sheet = !ctx_sheet; pe_defnames = !defnames; pe_tables = [] } in
-    bs (image m (names_of "en") env e)
+  | "P" :: ctx :: rest ->
+    let (envf, toks) = split_bar [] rest in
+    (match envf with
+     | n :: r ->
+       let (sh, r) = take (int_of_string n) r in
+       (match r with
+        | k :: r ->
+          let (dn, r) = take (3 * int_of_string k) r in
+          let rec defs = function
+            | name :: sc :: fo :: tl -> ((text_of_wire name, opt_z sc), text_of_wire fo) :: defs tl
+            | _ -> [] in
+          (match r with
+           | t :: r ->
+             let (tb, _) = take (int_of_string t) r in
+             let v = { v_sheets = List.map (fun s -> (text_of_wire s, [])) sh; v_defnames = defs dn;
+                       v_tables = List.map text_of_wire tb; v_locale = []; v_tz = [] } in
+             let tokens = List.map atom_token toks in
+             dump_s (parse_stored (fun _ -> tokens) (names_of "en") v (text_of_wire ctx) [])
+           | [] -> "badcase-env")
+        | [] -> "badcase-env")
+     | [] -> "badcase-env")
+  | "L" :: n :: [] -> zs (store_int (zi n))
   | _ -> "badcase"
